@@ -152,7 +152,10 @@ def run(chk, replay=None):
             attach(facade, devs[0], devs, tr, False)
     finally:
         w.cleanup()
-    vs, st = tlc.judge_traces("Trace_Attach", "Trace_Attach.cfg", events, shard=10 ** 9, procs=1, name="c16tr")
+    # the judge is stateful between two "reset" events (and remembers what an unnamed type selected first): shards
+    # start at resets, each shard learns its own first selections
+    vs, st = tlc.judge_traces("Trace_Attach", "Trace_Attach.cfg", events, shard=max(4000, len(events) // 16), procs=16,
+                              timeout=3000, name="c16tr", boundary=lambda e: e.get("ev") == "reset")
     ev.judged("Trace_Attach", st, len(events))
     for i, clause, detail in vs:
         e = events[i]
